@@ -17,10 +17,10 @@ ANCHORS = ["fm_estimated_configurations_number.py:count_configurations_rec",
 plan = semops.plan
 
 
-def judge(acc, source, spec, model, idx, sem_t, sem_c, tags, cls, payload):
+def judge(acc, source, spec, model, idx, sem_t, sem_c, tags, cls, payload, op=None):
     from flamapy.metamodels.fm_metamodel.operations import FMEstimatedConfigurationsNumber
     ok, est = guard(acc, cls, "FMEstimatedConfigurationsNumber", tags, payload,
-                    lambda: FMEstimatedConfigurationsNumber().execute(model).get_result())
+                    lambda: (op or FMEstimatedConfigurationsNumber()).execute(model).get_result())
     if not ok:
         return
     key = S.digest(spec) if S.feature_names(spec)[1:] else None
@@ -49,7 +49,8 @@ def judge(acc, source, spec, model, idx, sem_t, sem_c, tags, cls, payload):
 
 
 def run_shard(desc, acc):
-    semops.run(desc, acc, judge, "C13")
+    from flamapy.metamodels.fm_metamodel.operations import FMEstimatedConfigurationsNumber
+    semops.run(desc, acc, judge, "C13", FMEstimatedConfigurationsNumber)
 
 
 def replay(payload, acc):
